@@ -572,11 +572,15 @@ def filter_list(X, lf, node):
     i, j = z3.Ints('i_flt j_flt')
 
     def pred(item):
+        # pure evaluation of the predicate for an arbitrary item - but it is CODE: `==`
+        # between user objects keeps its code meaning (user_eq)
         X.spec_mode += 1
+        X.code_eq = getattr(X, 'code_eq', 0) + 1
         try:
             return zbool(X.truth(X.call(lf.f, [item], {}, node)))
         finally:
             X.spec_mode -= 1
+            X.code_eq -= 1
     X.assume(z3.And(n >= 0, n <= src.n))
     body = [0 <= emb(i), emb(i) < src.n, pred(src.at(emb(i))), inv(emb(i)) == i]
     for a, sa in zip(ats, src.ats):
